@@ -2,7 +2,9 @@ package main
 
 import (
 	"fmt"
-	"go/token"
+	"go/types"
+	"os"
+	"time"
 
 	"golang.org/x/tools/go/ssa"
 )
@@ -10,242 +12,326 @@ import (
 func init() {
 	register(&propDef{
 		id: "C12", run: runC12, minOblig: 9,
-		explanation: "Decides two structural clauses for the legacy block ciphers. (key lengths) for every constructor the accept/reject decision is evaluated on the code as a function of len(key) for every length 0..70 (and, for TEA, every round count -3..70) and equals the documented one: Blowfish NewCipher accepts 1..56; NewSaltedCipher accepts >= 1 with a non-empty salt and behaves as NewCipher for an empty salt; Twofish accepts 16, 24, 32; CAST5 16; TEA 16 with an even round count; XTEA 16 — and the key schedule is reachable exactly on the accepting side. (TEA cycle count) in tea.Encrypt and tea.Decrypt the number of cycles executed — loop trip count (bound expression evaluated for every even round count 0..256) times the number of sum updates per iteration, each accompanied by one update of each half block — equals rounds/2, and Decrypt starts from sum = delta*(rounds/2) with the same delta. The internal RC2 constructor performs no key check and documents none. NOT decided: that any cipher is invertible or equals its reference algorithm (S-box and Feistel arithmetic).",
+		explanation: "Decides two clauses for the legacy block ciphers by evaluating the SSA of the constructors and of the TEA block functions inside the checker (c12_interp.go: calls are followed into every helper, closure and standard-library function that has a body, so the verdict does not depend on how the code is factored or how locals, receivers and helpers are named). (key lengths) every constructor is evaluated for every key length 0..70 (Blowfish NewSaltedCipher 0..100; TEA 0..40 x every round count -3..70) with the CONTENT of key and salt left unknown — a branch or a panic that depended on content would stop the evaluation as undecided, so the verdict holds for all keys of that length: the error result is nil exactly for the documented lengths (Blowfish NewCipher 1..56; NewSaltedCipher >= 1 with a non-empty salt, and as NewCipher, 1..56, with a nil or empty salt, where for three concrete keys the resulting cipher state is also equal to NewCipher's; Twofish 16, 24, 32; CAST5 16; XTEA 16; TEA 16 with an even round count), no length makes the constructor panic (index and slice bounds that are computed from lengths are checked; an index computed from key content is not), an accepted call returns a non-nil cipher and the key schedule has read every key byte (the first 72 for Blowfish, whose schedule is cyclic over 18 words). (TEA cycle count) for every even round count 0..256 the cipher returned by NewCipherWithRounds(key, rounds) is applied, through its Encrypt and Decrypt methods, to two fixed key/block pairs and the output equals reference TEA (computed in the checker: delta 0x9e3779b9, sum from 0 upward for Encrypt, from delta*(rounds/2) downward for Decrypt) with exactly rounds/2 cycles; a mismatch is diagnosed as the cycle count / initial sum the output does correspond to. NewCipher(key) equals the 64-round (32-cycle) reference in both directions. The cycle-count clause is exhaustive over round counts and a sample over keys and blocks. The internal RC2 constructor performs no key check and documents none. NOT decided: that Blowfish, CAST5, Twofish, XTEA or RC2 are invertible or equal their reference algorithms (S-box and Feistel arithmetic).",
 		assumptions: []string{"documented key-size sets transcribed from the package documentation"},
 	})
-	tech("C12", "finite-domain evaluation of the constructors' reject predicates over all key lengths; loop trip-count x update-chain-length evaluation for the variable-round cipher")
+	tech("C12", "partial evaluation of the constructors' SSA over all key lengths with key content unknown (accept/reject, panics, key consumption); evaluation of the variable-round cipher for every even round count against reference TEA computed in the checker")
 }
 
+const c12StepLimit = 6000000
+
 func runC12(c *Ctx) {
+	it := newC12Interp(c.ld.prog)
+	if os.Getenv("C12_TIMING") != "" {
+		t0 := time.Now()
+		defer func() {
+			fmt.Fprintf(os.Stderr, "C12 rules: %.2fs, %d evaluation steps\n", time.Since(t0).Seconds(), it.total)
+		}()
+	}
+	unknownKey := func(k int64) ([]c12v, *c12obj) {
+		v, o := it.bytes(int(k), nil)
+		return []c12v{v}, o
+	}
 	type ctor struct {
-		pkg, fn  string
-		keyParam int
-		accept   func(k int64) bool
-		schedule string // callee that must be reachable exactly when accepted ("" = none)
+		pkg, fn string
+		accept  func(k int64) bool
 	}
 	ctors := []ctor{
-		{"blowfish", "NewCipher", 0, func(k int64) bool { return k >= 1 && k <= 56 }, "blowfish.ExpandKey"},
-		{"twofish", "NewCipher", 0, func(k int64) bool { return k == 16 || k == 24 || k == 32 }, ""},
-		{"cast5", "NewCipher", 0, func(k int64) bool { return k == 16 }, "(*cast5.Cipher).keySchedule"},
-		{"xtea", "NewCipher", 0, func(k int64) bool { return k == 16 }, "xtea.initCipher"},
+		{"blowfish", "NewCipher", func(k int64) bool { return k >= 1 && k <= 56 }},
+		{"twofish", "NewCipher", func(k int64) bool { return k == 16 || k == 24 || k == 32 }},
+		{"cast5", "NewCipher", func(k int64) bool { return k == 16 }},
+		{"xtea", "NewCipher", func(k int64) bool { return k == 16 }},
 	}
 	for _, ct := range ctors {
 		f := c.fn(ct.pkg, ct.fn)
 		if f == nil {
 			continue
 		}
-		bad := c12Eval(f, func(e *penv, k int64) { e.bindLen(f, f.Params[ct.keyParam], k) }, ct.accept, ct.schedule, 0, 70)
-		c.check(bad == "", "C12.key-length", ct.pkg+"."+ct.fn, f, "accept/reject agrees with the documentation for key lengths 0..70", bad)
+		bad, und := c12KeyLen(it, f, unknownKey, ct.accept, 0, 70)
+		c12Verdict(c, "C12.key-length", ct.pkg+"."+ct.fn, f, "accept/reject agrees with the documentation for key lengths 0..70 (any key content); accepted keys are consumed by the key schedule", bad, und)
 	}
 	// Blowfish NewSaltedCipher: two regimes
 	if f := c.fn("blowfish", "NewSaltedCipher"); f != nil {
-		bad := c12Eval(f, func(e *penv, k int64) { e.bindLen(f, f.Params[0], k); e.bindLen(f, f.Params[1], 16) }, func(k int64) bool { return k >= 1 }, "blowfish.expandKeyWithSalt", 0, 100)
-		c.check(bad == "", "C12.key-length", "blowfish.NewSaltedCipher (salted)", f, "with a salt every key of at least 1 byte is accepted (bcrypt passes up to 73)", bad)
-		// empty salt: delegates to NewCipher
-		e := newEnv()
-		e.bindLen(f, f.Params[1], 0)
-		_, rets, blocks := e.reachableExits(f, nil)
-		okDel := len(rets) == 1
-		for _, ci := range callsNamed(f, "blowfish.NewCipher") {
-			okDel = okDel && blocks[ci.Block()] && ci.Common().Args[0] == ssa.Value(f.Params[0])
+		bad, und := c12KeyLen(it, f, func(k int64) ([]c12v, *c12obj) {
+			kv, o := it.bytes(int(k), nil)
+			sv, _ := it.bytes(16, nil)
+			return []c12v{kv, sv}, o
+		}, func(k int64) bool { return k >= 1 }, 0, 100)
+		c12Verdict(c, "C12.key-length", "blowfish.NewSaltedCipher (salted)", f, "with a salt every key of at least 1 byte is accepted (bcrypt passes up to 73)", bad, und)
+		// nil / empty salt: behaves as NewCipher(key)
+		bad, und = "", ""
+		for _, nilSalt := range []bool{true, false} {
+			if bad != "" || und != "" {
+				break
+			}
+			bad, und = c12KeyLen(it, f, func(k int64) ([]c12v, *c12obj) {
+				kv, o := it.bytes(int(k), nil)
+				sv := c12v{k: c12Slice}
+				if !nilSalt {
+					sv, _ = it.bytes(0, nil)
+				}
+				return []c12v{kv, sv}, o
+			}, func(k int64) bool { return k >= 1 && k <= 56 }, 0, 100)
 		}
-		for _, ci := range callsNamed(f, "blowfish.expandKeyWithSalt") {
-			if blocks[ci.Block()] {
-				okDel = false
+		if nc := c.fn("blowfish", "NewCipher"); nc != nil && bad == "" && und == "" {
+			for _, k := range []int{1, 16, 56} {
+				key := make([]byte, k)
+				for i := range key {
+					key[i] = byte(0xa5 + 7*i)
+				}
+				kv1, _ := it.bytes(k, key)
+				kv2, _ := it.bytes(k, key)
+				r1, k1, m1 := it.run(nc, c12StepLimit, kv1)
+				r2, k2, m2 := it.run(f, c12StepLimit, kv2, c12v{k: c12Slice})
+				if k1 != "return" || k2 != "return" {
+					und = fmt.Sprintf("key length %d: evaluation stopped (%s %s / %s %s)", k, k1, m1, k2, m2)
+					break
+				}
+				if d := c12SameState(it, f, c12Results(r1)[0], c12Results(r2)[0]); d != "" {
+					bad = fmt.Sprintf("key length %d: %s", k, d)
+					break
+				}
 			}
 		}
-		c.check(okDel && len(callsNamed(f, "blowfish.NewCipher")) == 1, "C12.key-length", "blowfish.NewSaltedCipher (empty salt)", f, "returns NewCipher(key)", "with an empty salt NewSaltedCipher does not behave as NewCipher(key)")
+		if bad != "" {
+			bad = "with an empty salt NewSaltedCipher does not behave as NewCipher(key): " + bad
+		}
+		c12Verdict(c, "C12.key-length", "blowfish.NewSaltedCipher (empty salt)", f, "behaves as NewCipher(key): accepts exactly 1..56 bytes and builds the same cipher state", bad, und)
 	}
 	// TEA
-	if f := c.fn("tea", "NewCipherWithRounds"); f != nil {
-		bad := ""
-		for r := int64(-3); r <= 70 && bad == ""; r++ {
+	teaCtor := c.fn("tea", "NewCipherWithRounds")
+	if f := teaCtor; f != nil {
+		bad, und := "", ""
+		for r := int64(-3); r <= 70 && bad == "" && und == ""; r++ {
 			rr := r
-			b := c12Eval(f, func(e *penv, k int64) { e.bindLen(f, f.Params[0], k); e.bind(f.Params[1], rr) }, func(k int64) bool { return k == 16 && rr%2 == 0 }, "", 0, 40)
+			b, u := c12KeyLen(it, f, func(k int64) ([]c12v, *c12obj) {
+				kv, o := it.bytes(int(k), nil)
+				return []c12v{kv, c12int(rr)}, o
+			}, func(k int64) bool { return k == 16 && rr%2 == 0 }, 0, 40)
 			if b != "" {
 				bad = fmt.Sprintf("rounds=%d: %s", r, b)
 			}
-		}
-		c.check(bad == "", "C12.key-length", "tea.NewCipherWithRounds", f, "accepts exactly 16-byte keys with an even round count (rounds -3..70 x lengths 0..40)", bad)
-		okStore := false
-		for _, st := range storesTo(f, "tea", "rounds") {
-			if st.Val == ssa.Value(f.Params[1]) {
-				okStore = true
+			if u != "" {
+				und = fmt.Sprintf("rounds=%d: %s", r, u)
 			}
 		}
-		c.check(okStore, "C12.tea-cycles", "round count stored", f, "the cipher records the requested round count", "the requested round count is not what the cipher stores")
+		c12Verdict(c, "C12.key-length", "tea.NewCipherWithRounds", f, "accepts exactly 16-byte keys with an even round count (rounds -3..70 x lengths 0..40)", bad, und)
+		for _, dir := range []string{"Encrypt", "Decrypt"} {
+			bad, und, at := "", "", poser(f)
+			for r := 0; r <= 256 && bad == "" && und == ""; r += 2 {
+				for v := range c12TeaVectors {
+					b, u, m := c12TeaCheck(it, f, []c12v{c12int(int64(r))}, v, dir, r/2)
+					if m != nil {
+						at = m
+					}
+					if b != "" {
+						bad = fmt.Sprintf("rounds=%d: %s", r, b)
+					}
+					if u != "" {
+						und = fmt.Sprintf("rounds=%d: %s", r, u)
+					}
+					if bad != "" || und != "" {
+						break
+					}
+				}
+			}
+			c12Verdict(c, "C12.tea-cycles", "tea."+dir+" cycle count", at, "the cipher built for n rounds executes n/2 TEA cycles (output equals reference TEA) for every even round count 0..256", bad, und)
+		}
 	}
 	if f := c.fn("tea", "NewCipher"); f != nil {
-		ok := false
-		for _, ci := range callsNamed(f, "tea.NewCipherWithRounds") {
-			if k, isK := constInt(ci.Common().Args[1]); isK && k == 64 && ci.Common().Args[0] == ssa.Value(f.Params[0]) {
-				ok = true
+		bad, und := "", ""
+		for _, dir := range []string{"Encrypt", "Decrypt"} {
+			for v := range c12TeaVectors {
+				if bad != "" || und != "" {
+					break
+				}
+				bad, und, _ = c12TeaCheck(it, f, nil, v, dir, 32)
 			}
 		}
-		c.check(ok, "C12.tea-cycles", "tea.NewCipher", f, "standard TEA = 64 rounds", "NewCipher does not use the standard 64 rounds")
-	}
-	for _, n := range []string{"Encrypt", "Decrypt"} {
-		if f := c.fn("tea", "(*tea)."+n); f != nil {
-			c12TeaCycles(c, f, n)
+		if bad != "" {
+			bad = "NewCipher(key) is not standard 64-round TEA: " + bad
 		}
+		c12Verdict(c, "C12.tea-cycles", "tea.NewCipher", f, "standard TEA = 64 rounds (32 cycles) in both directions", bad, und)
 	}
 }
 
-// c12Eval evaluates a constructor for every key length lo..hi.
-func c12Eval(f *ssa.Function, bind func(e *penv, k int64), accept func(k int64) bool, schedule string, lo, hi int64) string {
+func c12Verdict(c *Ctx, rule, construct string, at poser, okDetail, bad, und string) {
+	switch {
+	case bad != "":
+		c.fail(rule, construct, at, bad)
+	case und != "":
+		c.undecided(rule, construct, at, und)
+	default:
+		c.ok(rule, construct, at, okDetail)
+	}
+}
+
+// c12KeyLen evaluates a constructor for every key length lo..hi. mk builds
+// the argument list for a key of k bytes and returns the key's storage (whose
+// loads are recorded). The constructor's last result is its error.
+func c12KeyLen(it *c12interp, f *ssa.Function, mk func(k int64) ([]c12v, *c12obj), accept func(k int64) bool, lo, hi int64) (bad, und string) {
 	for k := lo; k <= hi; k++ {
-		e := newEnv()
-		bind(e, k)
-		_, rets, blocks := e.reachableExits(f, nil)
-		acc, rej := false, false
-		errIdx := f.Signature.Results().Len() - 1
-		for _, r := range rets {
-			switch errNilness(retVal(r, errIdx), r.Block(), 0) {
-			case neverNil:
-				rej = true
-			case definitelyNil:
-				acc = true
-			default:
-				// delegated result (e.g. return NewCipher(key)): judged by the callee's own obligation
-				acc, rej = acc || accept(k), rej || !accept(k)
+		args, key := mk(k)
+		res, kind, msg := it.run(f, c12StepLimit, args...)
+		switch kind {
+		case "undecided":
+			return "", fmt.Sprintf("key length %d: %s", k, c12short(msg))
+		case "panic":
+			if accept(k) {
+				return fmt.Sprintf("a key of %d bytes is documented as valid but makes the constructor panic (%s)", k, msg), ""
 			}
+			return fmt.Sprintf("a key of %d bytes is documented as invalid; instead of returning an error the constructor panics (%s)", k, msg), ""
 		}
-		if accept(k) && (rej || !acc) {
-			return fmt.Sprintf("a key of %d bytes is documented as valid but can be rejected", k)
+		rs := c12Results(res)
+		if len(rs) < 2 {
+			return "", "the constructor does not return (cipher, error)"
 		}
-		if !accept(k) && (acc || !rej) {
-			return fmt.Sprintf("a key of %d bytes is documented as invalid but is accepted", k)
+		accepted := c12IsNil(rs[len(rs)-1])
+		if accept(k) && !accepted {
+			return fmt.Sprintf("a key of %d bytes is documented as valid but can be rejected", k), ""
 		}
-		if schedule != "" {
-			reached := false
-			for _, ci := range callsNamed(f, schedule) {
-				if blocks[ci.Block()] {
-					reached = true
+		if !accept(k) && accepted {
+			return fmt.Sprintf("a key of %d bytes is documented as invalid but is accepted", k), ""
+		}
+		if accepted {
+			if c12IsNil(rs[0]) {
+				return fmt.Sprintf("key length %d: accepted, but no cipher is returned", k), ""
+			}
+			// the key schedule consumes the key (Blowfish cycles over 18 words = 72 bytes)
+			for i := 0; i < int(k) && i < 72; i++ {
+				if !key.reads[i] {
+					return fmt.Sprintf("key length %d: accepted, but the key schedule never reads key byte %d", k, i), ""
 				}
 			}
-			if reached != accept(k) {
-				return fmt.Sprintf("key length %d: key schedule reachable=%v", k, reached)
-			}
+		}
+	}
+	return "", ""
+}
+
+// c12SameState compares the cipher records two constructor calls returned.
+func c12SameState(it *c12interp, f *ssa.Function, a, b c12v) string {
+	pt, ok := f.Signature.Results().At(0).Type().Underlying().(*types.Pointer)
+	if !ok || a.k != c12Ptr || b.k != c12Ptr || a.o == nil || b.o == nil {
+		return "no cipher record returned"
+	}
+	n := it.nleaf(pt.Elem())
+	for i := 0; i < n; i++ {
+		x, y := a.o.cells[a.a+i], b.o.cells[b.a+i]
+		if x.k != c12Int || y.k != c12Int {
+			return "cipher state not computable"
+		}
+		if x.n != y.n {
+			return fmt.Sprintf("the cipher state differs from NewCipher's (word %d: %#x vs %#x)", i, y.n, x.n)
 		}
 	}
 	return ""
 }
 
-// chainLen: number of BinOps with operator op on the def chain from v back to phi
-// (each with the previous chain value as left operand).
-func chainLen(v ssa.Value, phi *ssa.Phi, op token.Token) (int, []*ssa.BinOp, bool) {
-	n := 0
-	var ops []*ssa.BinOp
-	for v != ssa.Value(phi) {
-		bo, ok := v.(*ssa.BinOp)
-		if !ok || bo.Op != op || n > 64 {
-			return 0, nil, false
-		}
-		ops = append(ops, bo)
-		n++
-		v = bo.X
-	}
-	return n, ops, true
+// ---------------------------------------------------------------------------
+// TEA against the reference algorithm
+
+const c12Delta = 0x9e3779b9
+
+var c12TeaVectors = []struct {
+	key [16]byte
+	blk [8]byte
+}{
+	{[16]byte{0x01, 0x23, 0x45, 0x67, 0x89, 0xab, 0xcd, 0xef, 0xfe, 0xdc, 0xba, 0x98, 0x76, 0x54, 0x32, 0x10}, [8]byte{0xde, 0xad, 0xbe, 0xef, 0x0b, 0xad, 0xf0, 0x0d}},
+	{[16]byte{0xff, 0x00, 0x80, 0x7f, 0x11, 0x22, 0x33, 0x44, 0xc3, 0x5a, 0xa5, 0x3c, 0x99, 0x66, 0xe7, 0x18}, [8]byte{0x00, 0x00, 0x00, 0x01, 0xff, 0xff, 0xff, 0xfe}},
 }
 
-func c12TeaCycles(c *Ctx, f *ssa.Function, name string) {
-	op := token.ADD
-	if name == "Decrypt" {
-		op = token.SUB
+func c12be32(b []byte) uint32 {
+	return uint32(b[0])<<24 | uint32(b[1])<<16 | uint32(b[2])<<8 | uint32(b[3])
+}
+
+// c12TeaRef: reference TEA (Wheeler & Needham 1994). Encryption runs `cycles`
+// cycles with sum counting up from 0; decryption runs them with sum counting
+// down from startSum.
+func c12TeaRef(key [16]byte, blk [8]byte, cycles int, dec bool, startSum uint32) [8]byte {
+	v0, v1 := c12be32(blk[0:]), c12be32(blk[4:])
+	k0, k1, k2, k3 := c12be32(key[0:]), c12be32(key[4:]), c12be32(key[8:]), c12be32(key[12:])
+	if !dec {
+		sum := uint32(0)
+		for i := 0; i < cycles; i++ {
+			sum += c12Delta
+			v0 += ((v1 << 4) + k0) ^ (v1 + sum) ^ ((v1 >> 5) + k1)
+			v1 += ((v0 << 4) + k2) ^ (v0 + sum) ^ ((v0 >> 5) + k3)
+		}
+	} else {
+		sum := startSum
+		for i := 0; i < cycles; i++ {
+			v1 -= ((v0 << 4) + k2) ^ (v0 + sum) ^ ((v0 >> 5) + k3)
+			v0 -= ((v1 << 4) + k0) ^ (v1 + sum) ^ ((v1 >> 5) + k1)
+			sum -= c12Delta
+		}
 	}
-	be := backEdges(f)
-	backVal := func(ph *ssa.Phi) (ssa.Value, ssa.Value) {
-		var back, entry ssa.Value
-		for i, e := range ph.Edges {
-			pred := ph.Block().Preds[i]
-			isBack := false
-			for j, s := range pred.Succs {
-				if s == ph.Block() && be[edge{pred, j}] {
-					isBack = true
-				}
+	return [8]byte{byte(v0 >> 24), byte(v0 >> 16), byte(v0 >> 8), byte(v0), byte(v1 >> 24), byte(v1 >> 16), byte(v1 >> 8), byte(v1)}
+}
+
+// c12TeaCheck builds a cipher with ctor(key, extra...), applies its method dir
+// (found by dynamic dispatch on the returned cipher.Block) to test vector v
+// and compares the output with reference TEA of `cycles` cycles.
+func c12TeaCheck(it *c12interp, ctor *ssa.Function, extra []c12v, v int, dir string, cycles int) (bad, und string, at poser) {
+	vec := c12TeaVectors[v]
+	kv, _ := it.bytes(16, vec.key[:])
+	res, kind, msg := it.run(ctor, c12StepLimit, append([]c12v{kv}, extra...)...)
+	if kind != "return" {
+		return "", fmt.Sprintf("constructor: %s (%s)", kind, c12short(msg)), nil
+	}
+	rs := c12Results(res)
+	if len(rs) != 2 {
+		return "", "the constructor does not return (cipher, error)", nil
+	}
+	if !c12IsNil(rs[1]) || c12IsNil(rs[0]) {
+		return "the constructor rejects a 16-byte key with this round count", "", nil
+	}
+	m, recv := it.method(rs[0], ctor.Signature.Results().At(0).Type(), dir)
+	if m == nil {
+		return "", "the returned cipher has no method " + dir, nil
+	}
+	dst, dobj := it.bytes(8, make([]byte, 8))
+	src, _ := it.bytes(8, vec.blk[:])
+	_, kind, msg = it.run(m, c12StepLimit, recv, dst, src)
+	if kind == "undecided" {
+		return "", dir + ": " + c12short(msg), m
+	}
+	if kind == "panic" {
+		return dir + " panics on an 8-byte block (" + msg + ")", "", m
+	}
+	var out [8]byte
+	for i := range out {
+		cell := dobj.cells[i]
+		if cell.k != c12Int {
+			return "", dir + ": output byte not computable", m
+		}
+		out[i] = byte(cell.n)
+	}
+	dec := dir == "Decrypt"
+	want := c12TeaRef(vec.key, vec.blk, cycles, dec, c12Delta*uint32(cycles))
+	if out == want {
+		return "", "", m
+	}
+	// diagnose: which cycle count / initial sum does the output correspond to?
+	const span = 300
+	for n := 0; n <= span; n++ {
+		if out == c12TeaRef(vec.key, vec.blk, n, dec, c12Delta*uint32(cycles)) {
+			if dec {
+				return fmt.Sprintf("%s executes %d cycles (its output equals %d-cycle TEA decryption started from sum = delta*%d), TEA requires %d", dir, n, n, cycles, cycles), "", m
 			}
-			if isBack {
-				back = e
-			} else {
-				entry = e
+			return fmt.Sprintf("%s executes %d cycles (its output equals %d-cycle TEA), TEA requires %d", dir, n, n, cycles), "", m
+		}
+	}
+	if dec {
+		for n := 0; n <= span; n++ {
+			if out == c12TeaRef(vec.key, vec.blk, n, dec, c12Delta*uint32(n)) {
+				return fmt.Sprintf("%s executes %d cycles starting from sum = delta*%d, TEA requires %d cycles from delta*%d", dir, n, n, cycles, cycles), "", m
 			}
 		}
-		return back, entry
-	}
-	var sumPhi, iPhi, v0Phi, v1Phi *ssa.Phi
-	allInstrs(f, func(in ssa.Instruction) {
-		if ph, ok := in.(*ssa.Phi); ok {
-			switch ph.Comment {
-			case "sum":
-				sumPhi = ph
-			case "i":
-				iPhi = ph
-			case "v0":
-				v0Phi = ph
-			case "v1":
-				v1Phi = ph
+		for s := 0; s <= span; s++ {
+			if out == c12TeaRef(vec.key, vec.blk, cycles, dec, c12Delta*uint32(s)) {
+				return fmt.Sprintf("%s starts from sum = delta*%d, expected delta*(rounds/2) = delta*%d", dir, s, cycles), "", m
 			}
 		}
-	})
-	if sumPhi == nil || iPhi == nil || v0Phi == nil || v1Phi == nil {
-		c.undecided("C12.tea-cycles", "tea."+name, f, "loop-carried sum/i/v0/v1 not found")
-		return
 	}
-	sb, sEntry := backVal(sumPhi)
-	k, ops, ok := chainLen(sb, sumPhi, op)
-	// each sum update uses delta
-	okDelta := ok
-	for _, bo := range ops {
-		if kk, isK := newEnv().eval(bo.Y); !isK || uint32(kk) != 0x9e3779b9 {
-			okDelta = false
-		}
-	}
-	v0b, _ := backVal(v0Phi)
-	v1b, _ := backVal(v1Phi)
-	k0, _, ok0 := chainLen(v0b, v0Phi, op)
-	k1, _, ok1 := chainLen(v1b, v1Phi, op)
-	ib, iEntry := backVal(iPhi)
-	step, stepOK := int64(0), false
-	if bo, isB := ib.(*ssa.BinOp); isB && bo.Op == token.ADD && bo.X == ssa.Value(iPhi) {
-		step, stepOK = constInt(bo.Y)
-	}
-	i0, i0OK := constInt(iEntry)
-	// loop condition: i < bound
-	var bound ssa.Value
-	for _, in := range iPhi.Block().Instrs {
-		if bo, isB := in.(*ssa.BinOp); isB && bo.Op == token.LSS && bo.X == ssa.Value(iPhi) {
-			bound = bo.Y
-		}
-	}
-	if !ok || !ok0 || !ok1 || !okDelta || !stepOK || !i0OK || bound == nil || step != 1 || i0 != 0 {
-		c.undecided("C12.tea-cycles", "tea."+name, f, fmt.Sprintf("loop shape not recognised (sum chain ok=%v delta=%v, v0 ok=%v, v1 ok=%v, step=%d, start=%d)", ok, okDelta, ok0, ok1, step, i0))
-		return
-	}
-	bad := ""
-	for r := int64(0); r <= 256; r += 2 {
-		e := newEnv()
-		e.bindField(f, "tea", "rounds", r)
-		trips, okT := e.eval(bound)
-		if !okT {
-			bad = "loop bound does not evaluate from the round count"
-			break
-		}
-		if trips < 0 {
-			trips = 0
-		}
-		if trips*int64(k) != r/2 || k0 != k || k1 != k {
-			bad = fmt.Sprintf("rounds=%d: %d iterations x %d sum updates (v0 updates %d, v1 updates %d) = %d cycles, TEA requires %d", r, trips, k, k0, k1, trips*int64(k), r/2)
-			break
-		}
-		if name == "Decrypt" {
-			if s0, okS := e.eval(sEntry); !okS || uint32(s0) != uint32(0x9e3779b9*(r/2)) {
-				bad = fmt.Sprintf("rounds=%d: Decrypt starts from sum=%#x, expected delta*(rounds/2)=%#x", r, uint32(s0), uint32(0x9e3779b9*(r/2)))
-				break
-			}
-		} else if s0, okS := e.eval(sEntry); !okS || s0 != 0 {
-			bad = "Encrypt does not start from sum = 0"
-			break
-		}
-	}
-	c.check(bad == "", "C12.tea-cycles", "tea."+name+" cycle count", f, fmt.Sprintf("%d sum update(s) per iteration; iterations x updates = rounds/2 for every even round count 0..256", k), bad)
+	return fmt.Sprintf("%s output %x differs from reference TEA with %d cycles (%x) and from every other cycle count 0..%d: the round function, delta or the initial sum differs", dir, out, cycles, want, span), "", m
 }
